@@ -17,6 +17,7 @@ import (
 	"runtime"
 	"strings"
 	"sync"
+	"time"
 
 	"verifharness/hx"
 )
@@ -65,12 +66,12 @@ func genDavEnv(r *hx.Rand, card bool, failEvery int, insane bool) *davEnv {
 	if card {
 		ext = "vcf"
 	}
-	e := &davEnv{card: card, has: !r.Chance(1, 60), prefix: r.Pick([]string{"", "", "/", "/dav", "/dav/"})}
+	e := &davEnv{card: card, has: !r.Chance(1, 60), prefix: r.Pick([]string{"", "", "/", "/dav", "/dav/", "/dav", "/dav/", "/dav/./", "//dav", "/dav//", "dav", "/DAV", "/dav/../dav"})}
 	pre := strings.TrimSuffix(e.prefix, "/")
 	e.principal = maybe(r, failEvery, insane, false)
-	e.principalP = pre + r.Pick([]string{"/u/", "/u", "/u/", "/other/"})
+	e.principalP = pre + r.Pick([]string{"/u/", "/u", "/u/", "/other/", "/u/", "/u//", "/./u/"})
 	e.homeset = maybe(r, failEvery, insane, false)
-	e.homeP = pre + r.Pick([]string{"/u/h/", "/u/h", "/u/h/", "/u/x/"})
+	e.homeP = pre + r.Pick([]string{"/u/h/", "/u/h", "/u/h/", "/u/x/", "/u/h/", "/u//h/", "/u/h/./"})
 	e.colls = maybe(r, failEvery, insane, false)
 	for i := r.Intn(3); i > 0; i-- {
 		e.collPaths = append(e.collPaths, fmt.Sprintf("%s/u/h/c%d/", pre, i))
@@ -182,6 +183,8 @@ var xmlBodies = []string{
 }
 
 func main() {
+	// the process zone is not UTC: a handler that formats a time without .UTC() shows
+	time.Local = time.FixedZone("HarnessLocal", -7*3600)
 	out := flag.String("out", "", "output file")
 	replay := flag.String("replay", "", "file of case lines to re-run (inputs are re-executed)")
 	flag.Parse()
@@ -199,7 +202,15 @@ func main() {
 	}
 
 	thorough := hx.Tier() == "thorough"
+	jobs := make(chan *job, 4096)
+	extra := make(chan *job, 4096)
 	work := make(chan *kase, 4096)
+	go func() {
+		for k := range work {
+			jobs <- &job{steps: []*kase{k}}
+		}
+		close(jobs)
+	}()
 	var wg sync.WaitGroup
 	nw := runtime.NumCPU() / 2
 	if nw < 2 {
@@ -214,13 +225,21 @@ func main() {
 			defer wg.Done()
 			wr := newWire()
 			defer wr.srv.Close()
-			for k := range work {
-				sink.Put(k.line(wr))
+			for j := range jobs {
+				for _, l := range j.lines(wr) {
+					sink.Put(l)
+				}
+			}
+			for j := range extra {
+				for _, l := range j.lines(wr) {
+					sink.Put(l)
+				}
 			}
 		}()
 	}
 
 	rng := hx.NewRand(hx.Seed())
+	var sessions []*job
 
 	// ---- 1. the grid: every method x every hierarchy level, header values from valid,
 	// boundary and invalid sets, a few bodies, against a healthy and an unhealthy double
@@ -294,8 +313,15 @@ func main() {
 				// for the other methods that read a body
 				switch strings.ToUpper(m) {
 				case "MKCOL":
+					level3 := p == "/u/h/c" || p == "/u/h/c/" || p == "//u//h//c" || p == "/dav/u/h/c"
 					for _, v := range variants {
 						for _, d := range deliveries[1:] {
+							if !thorough && !level3 {
+								gridN++
+								if gridN%(len(deliveries)-1) != 0 {
+									continue
+								}
+							}
 							q := *v
 							q.delivery = d
 							work <- withEnv(rng, srv, &q, 1<<30, false)
@@ -438,7 +464,14 @@ func main() {
 		work <- withEnv(rng, "dav", req, 1<<30, false)
 	}
 
+	// ---- 5. sessions, overlapping requests, sizes, spellings (generator audit)
+	audit(rng, thorough, func(j *job) { sessions = append(sessions, j) }, func(k *kase) { work <- k })
+
 	close(work)
+	for _, j := range sessions {
+		extra <- j
+	}
+	close(extra)
 	wg.Wait()
 	fmt.Fprintf(os.Stderr, "c13: %d cases\n", sink.N)
 }
